@@ -408,11 +408,19 @@ Example ex_session_rejections :
   [(1, NBinary); (2, NBadJson); (3, NBadJson); (4, NParse); (5, NInvalid); (6, NNotAuthentic); (7, NInternal)].
 Proof. vm_compute. reflexivity. Qed.
 
+(** The notice texts themselves are regenerated from relay.go and not pinned
+    (rewording a notice is not a change of behaviour the property speaks of);
+    the formatter is shown on explicit formats. *)
+Example ex_fmt1 :
+  fmt1 (gtxt "invalid sig event: %s") (gtxt "e1") = gtxt "invalid sig event: e1" /\
+  fmt1 (gtxt "100%% of %s!") (gtxt "it") = gtxt "100% of it!" /\
+  fmt1 (gtxt "internal error") (gtxt "unused") = gtxt "internal error".
+Proof. vm_compute. auto. Qed.
+
 Example ex_notice_texts :
   List.map rj_text (rejections (session ex_frames)) =
-  [ gtxt "binary websocket message type is not allowed"; gtxt "invalid json msg"; gtxt "invalid json msg";
-    gtxt "invalid client msg"; gtxt "invalid client msg: [payload]"; gtxt "invalid sig event: e1";
-    gtxt "internal error" ].
+  List.map (fun p => fmt1 (nth (fst p) g_gate_notice_fmts []) (snd p))
+    [ (0%nat, []); (1%nat, []); (1%nat, []); (2%nat, []); (3%nat, gtxt "[payload]"); (5%nat, gtxt "e1"); (4%nat, []) ].
 Proof. vm_compute. reflexivity. Qed.
 
 Example ex_forward_hypotheses_satisfiable :
